@@ -99,6 +99,51 @@ func init() {
 			}
 			return mkConst(64, uint64(k))
 		},
+		"vUseVFS": func(ex *Exec, fn *ssa.Function, a []Value) Value {
+			ex.vfs = newVFS()
+			return nil
+		},
+		"vCrashEnable": func(ex *Exec, fn *ssa.Function, a []Value) Value {
+			ex.vfs.crashOn = a[0].(*Term).IsTrue()
+			return nil
+		},
+		"vRunUntilCrash": func(ex *Exec, fn *ssa.Function, a []Value) Value {
+			f := a[0].(*FuncVal)
+			depth := len(ex.stack)
+			crashed := false
+			func() {
+				defer func() {
+					if r := recover(); r != nil {
+						if _, ok := r.(crashSignal); ok {
+							crashed = true
+							ex.stack = ex.stack[:depth]
+							return
+						}
+						panic(r)
+					}
+				}()
+				ex.callNamed(f.Fn, nil, f.Bind, nil)
+			}()
+			if ex.vfs != nil {
+				ex.vfs.crashOn = false
+				// the process is gone: every open handle with it
+				ex.vfs.handles = map[*Cell]*vhandle{}
+				ex.vfs.streams = map[*Cell]*vstream{}
+			}
+			return mkBool(crashed)
+		},
+		"vSyncInt": func(ex *Exec, fn *ssa.Function, a []Value) Value {
+			t := a[1].(*Term)
+			if !t.IsConst() {
+				ex.fatal("vSyncInt needs a concrete value")
+			}
+			ex.choices[ex.freshName(ex.argName(a[0]))] = t.C
+			return t
+		},
+		"vMisparsed": func(ex *Exec, fn *ssa.Function, a []Value) Value {
+			return mkBool(ex.vfs != nil && ex.vfs.misparsed)
+		},
+		"vFileOffsetIsBoundary": func(ex *Exec, fn *ssa.Function, a []Value) Value { return tTrue },
 		"vEndPath": func(ex *Exec, fn *ssa.Function, a []Value) Value {
 			ex.end("PASS", "vEndPath")
 			return nil
